@@ -352,7 +352,7 @@ def run(rep):
   rep.encode('precondition.quantization_utils.QuantizedValue.quantize/from_float_value/to_float', 'precondition/quantization_utils.py')
   ts = tasks(rep.tier)
   for t in ts:
-    t['timeout'] = 900 if rep.tier == 'quick' else (700 if t.get('stretch') else 1500)
+    t['timeout'] = 1500 if rep.tier == 'quick' else (700 if t.get('stretch') else 1500)
   rep.bounds = dict(tasks=len(ts), rows_per_column=sorted({t['m'] for t in ts}), dtypes=sorted({t['dt'] for t in ts}),
                     values='all finite float32 bit patterns (subnormals included) per entry')
   rep.assumptions = ['XLA:CPU flush-to-zero semantics for float32 arithmetic', 'float->int conversion is exact for in-range integral values (range is obligation Q1)',
@@ -360,5 +360,5 @@ def run(rep):
   rep.outside = ['bfloat16 mode (narrow float conversion not encoded)', 'more than 3 rows per column (quick: 2)', 'NaN/Inf inputs (the property speaks of finite tensors)']
   rep.extra['solvers'] = 'cvc5 1.4.0 wheel and z3 5.1.0 CLI raced per query; first definite answer wins'
   # every task races up to 4 lowering cases x 2 solvers: keep the number of solver processes near the core count
-  run_tasks('vp.props.c11', 'work', ts, report=rep, timeout=(1000 if rep.tier == 'quick' else 6300), workers=(8 if rep.tier == 'quick' else 3))
+  run_tasks('vp.props.c11', 'work', ts, report=rep, timeout=(1700 if rep.tier == 'quick' else 6300), workers=(8 if rep.tier == 'quick' else 3))
   rep.violations += known_replays()
